@@ -30,6 +30,7 @@ type c13Case struct {
 	Transfer string    `json:"transfer"` // data | bdat1 | bdat3 | bdatfail
 	Backend  string    `json:"backend"`  // lmtp | plain
 	Reject   string    `json:"reject"`   // "" | first | middle: an extra recipient refused at RCPT time at that position; badbdat-first | badbdat-middle: a malformed (refused) BDAT command at that position
+	Addrs    string    `json:"addrs"`    // "" | case (see addr)
 	Second   []string  `json:"second"`   // recipient list of a second transaction on the same connection (every occurrence gets its own status)
 }
 
@@ -45,10 +46,18 @@ func init() {
 }
 
 func c13Run(ctx *core.Ctx) {
-	ctx.Rule = "all 30 recipient lists of length 1..4 over two addresses x all sequences of SetStatus calls within the multiplicities (every sub-multiset and order) x status timing {before reading the message, after, interleaved} x return {nil, error} x panic {none, before any status, after the calls, SetStatus too often, unknown address, late call from a goroutine after return} x transfer {DATA, BDAT single LAST, BDAT three chunks, BDAT LAST whose delivery fails before consuming the chunk} x backend {per-recipient, plain} x a recipient refused at RCPT time {none, first, in the middle}; every status carries a unique token; reference attribution = per-address FIFO. Non-trivial: at least two recipients or at least one status call; distinct by case."
+	ctx.Rule = "all 30 recipient lists of length 1..4 over two addresses x all sequences of SetStatus calls within the multiplicities (every sub-multiset and order) x status timing {before reading the message, after, interleaved} x return {nil, error} x panic {none, before any status, after the calls, SetStatus too often, unknown address, late call from a goroutine after return} x transfer {DATA, BDAT single LAST, BDAT three chunks, BDAT LAST whose delivery fails before consuming the chunk} x backend {per-recipient, plain} x a recipient refused at RCPT time {none, first, in the middle}; every status carries a unique token; in every third case the two addresses differ only in the letter case of their domain; reference attribution = per-address FIFO. Non-trivial: at least two recipients or at least one status call; distinct by case."
 	ctx.Exhaustive = true
 	ctx.Assumptions = []string{"deadlock verdicts are state based: backend returned, client has nothing left to send, server neither parked reading nor writing for 300 consecutive polls, corroborated by a goroutine dump", "after a backend panic only the replies that were sent are judged"}
-	core.RunCases(ctx, func(emit func(c13Case)) {
+	core.RunCases(ctx, func(emit0 func(c13Case)) {
+		nEmit := 0
+		emit := func(c c13Case) {
+			nEmit++
+			if nEmit%3 == 0 {
+				c.Addrs = "case"
+			}
+			emit0(c)
+		}
 		idx := 0
 		var lists [][]string
 		alphabet, maxList := []string{"a", "b"}, 4
@@ -131,10 +140,23 @@ func c13Run(ctx *core.Ctx) {
 	}, c13Exec)
 }
 
-func c13Addr(a string) string { return a + "@x.test" }
+// addr maps the abstract recipient names to addresses. With Addrs == "case" the first two differ
+// only in the letter case of the domain: they are different RCPT arguments (the backend is
+// handed, and uses, each exactly as it was sent) and must not share their statuses.
+func (c c13Case) addr(a string) string {
+	if c.Addrs == "case" {
+		switch a {
+		case "a":
+			return "ann@x.test"
+		case "b":
+			return "ann@X.TEST"
+		}
+	}
+	return a + "@x.test"
+}
 
 func c13Exec(ctx *core.Ctx, c c13Case) {
-	ctx.Eval(fmt.Sprintf("%v|%v|%s|%v|%s|%s|%s|%s|%v", c.Rcpts, c.Calls, c.Timing, c.RetErr, c.Panic, c.Transfer, c.Backend, c.Reject, c.Second), len(c.Rcpts) >= 2 || len(c.Calls) > 0)
+	ctx.Eval(fmt.Sprintf("%v|%v|%s|%v|%s|%s|%s|%s|%v|%s", c.Rcpts, c.Calls, c.Timing, c.RetErr, c.Panic, c.Transfer, c.Backend, c.Reject, c.Second, c.Addrs), len(c.Rcpts) >= 2 || len(c.Calls) > 0)
 	mode := modeLMTPRcpt
 	if c.Backend == "plain" {
 		mode = modeLMTP
@@ -167,7 +189,7 @@ func c13Exec(ctx *core.Ctx, c c13Case) {
 		if dataCalls == 2 {
 			r.ReadAll(64)
 			for i, a := range c.Second {
-				st.SetStatus(c13Addr(a), &smtp.SMTPError{Code: 450 + i, EnhancedCode: smtp.EnhancedCode{4, 2, i}, Message: fmt.Sprintf("v#t2-%d second transaction", i)})
+				st.SetStatus(c.addr(a), &smtp.SMTPError{Code: 450 + i, EnhancedCode: smtp.EnhancedCode{4, 2, i}, Message: fmt.Sprintf("v#t2-%d second transaction", i)})
 			}
 			return nil
 		}
@@ -180,7 +202,7 @@ func c13Exec(ctx *core.Ctx, c c13Case) {
 		doCalls := func(from, to int) {
 			for k := from; k < to && k < len(c.Calls); k++ {
 				if st != nil {
-					st.SetStatus(c13Addr(c.Calls[k].Addr), statusErr(k, c.Calls[k]))
+					st.SetStatus(c.addr(c.Calls[k].Addr), statusErr(k, c.Calls[k]))
 				}
 			}
 		}
@@ -204,7 +226,7 @@ func c13Exec(ctx *core.Ctx, c c13Case) {
 		case "toooften":
 			if st != nil {
 				for i := 0; i < 6; i++ {
-					st.SetStatus(c13Addr(c.Rcpts[0]), nil)
+					st.SetStatus(c.addr(c.Rcpts[0]), nil)
 				}
 			}
 		case "unknown":
@@ -218,7 +240,7 @@ func c13Exec(ctx *core.Ctx, c c13Case) {
 					defer close(lateDone)
 					defer func() { recover() }()
 					for i := 0; i < 8; i++ {
-						st.SetStatus(c13Addr(c.Rcpts[0]), &smtp.SMTPError{Code: 550, EnhancedCode: smtp.EnhancedCode{5, 0, 0}, Message: "v#late must never be reported"})
+						st.SetStatus(c.addr(c.Rcpts[0]), &smtp.SMTPError{Code: 550, EnhancedCode: smtp.EnhancedCode{5, 0, 0}, Message: "v#late must never be reported"})
 					}
 				}()
 			}
@@ -237,7 +259,7 @@ func c13Exec(ctx *core.Ctx, c c13Case) {
 			// a BDAT refused for its syntax is not a chunk: the transaction simply goes on
 			rcptLines = append(rcptLines, []string{"BDAT 0 FINAL", "BDAT 0 LAST now", "BDAT x1"}[(i+len(c.Calls))%3])
 		}
-		rcptLines = append(rcptLines, "RCPT TO:<"+c13Addr(rc)+">")
+		rcptLines = append(rcptLines, "RCPT TO:<"+c.addr(rc)+">")
 	}
 	p.SendStr("LHLO c.test\r\nMAIL FROM:<s@x.test>\r\n" + strings.Join(rcptLines, "\r\n") + "\r\n")
 	head, err := expect(p, 3+len(rcptLines))
@@ -356,7 +378,7 @@ func c13Exec(ctx *core.Ctx, c c13Case) {
 	if len(c.Second) > 0 && deadlock == "" && len(finals) == n && !closedByServer {
 		var lines []string
 		for _, a := range c.Second {
-			lines = append(lines, "RCPT TO:<"+c13Addr(a)+">")
+			lines = append(lines, "RCPT TO:<"+c.addr(a)+">")
 		}
 		p.SendStr("MAIL FROM:<s2@x.test>\r\n" + strings.Join(lines, "\r\n") + "\r\n")
 		rs, err := expect(p, 1+len(lines))
@@ -400,7 +422,7 @@ func c13Exec(ctx *core.Ctx, c c13Case) {
 			return
 		}
 		for i, r := range finals2 {
-			rc := c13Addr(c.Second[i])
+			rc := c.addr(c.Second[i])
 			// per-address FIFO: the i-th recipient's status is the one set for its occurrence
 			occ := 0
 			for j := 0; j < i; j++ {
@@ -505,7 +527,7 @@ func c13Exec(ctx *core.Ctx, c c13Case) {
 		if i >= n {
 			break
 		}
-		rc := c13Addr(c.Rcpts[i])
+		rc := c.addr(c.Rcpts[i])
 		txt := r.Text()
 		if !strings.Contains(txt, "<"+rc+"> ") {
 			if r.Code == 421 && panicked {
@@ -552,6 +574,12 @@ func c13Exec(ctx *core.Ctx, c c13Case) {
 				fail("C13:status-text-altered", fmt.Sprintf("reply #%d for <%s> is %q, the backend's status text is %q", i, rc, txt, full))
 				return
 			}
+		}
+	}
+	if c.Panic == "" {
+		if pm := logPanic(rig.Log.Events()); pm != "" {
+			fail("C13:recovered-panic", "the backend script does not panic, yet the server recovered one while fanning out the statuses: "+clipStr(pm, 300))
+			return
 		}
 	}
 	cls := fmt.Sprintf("%s/%s/%s", c.Backend, c.Transfer, c.Panic)
